@@ -107,9 +107,52 @@ SHORT_HISTORY = ["new", "schema {sid}", "context", "key 110 0", "key 105 0", "co
                  "key 65473 0", "context", "key 50 0", "context", "key 65473 0", "key 65364 0", "key 65364 0", "key 32 0", "context",
                  "key 96 4", "context", "key 65307 0", "state_label {zh} 1", "option {zh} 1", "key 110 0", "key 105 0", "context",
                  "state_label {zh} 0", "option {zh} 0", "context", "key 65307 0", "schema_list", "status",
-                 "sim {sim}", "context", "commit", "cur_schema 64", "schema vs_script", "key 97 0", "context", "schema {sid}", "context"] + \
+                 "sim {sim}", "context", "commit", "cur_schema 64", "schema vs_script", "key 97 0", "context", "schema {sid}", "context",
+                 # the switcher hotkey pressed again while its menu is open (HighlightNextSchema walks the menu), then a selection
+                 "key 65473 0", "key 65473 0", "context", "key 65473 0", "key 65473 0", "key 65473 0", "context", "key 32 0", "context",
+                 "key 96 4", "key 96 4", "key 96 4", "context", "key 65307 0", "context"] + \
     [x for ch in "/\\|~`'\"<>[]{{}}$^*%@#&=+-_:;!?" for x in ("key %d 0" % ord(ch), "context", "key %d 0" % ord(ch), "context", "key %d 0" % ord(ch), "key 32 0", "read_commit")]
 
 
 def short_history(sid):
     return [l.format(sid=sid, opt=hx("ascii_mode"), zh=hx("zh_simp"), sim=hx("ni hao{space}")) for l in SHORT_HISTORY]
+
+
+# ---------------------------------------------------------------- state that outlives one call: mode switches x schema change
+MODE_STEPS = {
+    "ShiftL": ["key 65505 0", "key 65505 1073741824"],        # inline_ascii in the stock ascii_composer
+    "ShiftR": ["key 65506 0", "key 65506 1073741824"],        # commit_text
+    "Caps": ["key 65509 0", "key 65509 1073741824"],          # clear
+    "CtrlL": ["key 65507 0", "key 65507 1073741828"],         # noop
+    "ascii0": ["option {a} 0"], "ascii1": ["option {a} 1"],
+    "toggle": ["key 50 5"],                                   # Control+Shift+2: key_binder's ascii_mode toggle
+}
+
+
+def mode_grid(depth):
+    """every sequence of at most `depth` mode switches (modifier taps the ascii_composer binds, the ascii_mode option set
+    directly and through the key binder), applied while a composition is open, followed by a change of schema (which
+    destroys the processors while their notifier connections may still be live), a key, Escape, and the way back.
+    One session per sequence; returns the script lines."""
+    import itertools
+    names = sorted(MODE_STEPS)
+    lines, n = [], 0
+    for k in range(1, depth + 1):
+        for seq in itertools.product(names, repeat=k):
+            lines += ["new", "schema vs_full", "key 110 0", "key 105 0"]
+            for nm in seq:
+                lines += [x.format(a=hx("ascii_mode")) for x in MODE_STEPS[nm]]
+            lines += ["context", "schema vs_script", "key 97 0", "key 65307 0", "context", "schema vs_full", "key 110 0", "context",
+                      "key 65307 0", "destroy %d" % n]
+            n += 1
+    return lines, n
+
+
+def make_single_schema_workspace(d):
+    """the stock-like workspace with ONE schema in schema_list (the switcher's menu then has no other schema to offer)"""
+    make_full_workspace(d)
+    p = os.path.join(d, "default.yaml")
+    t = open(p, encoding="utf-8").read()
+    t = t.replace("  - schema: vs_script\n", "")
+    open(p, "w", encoding="utf-8").write(t)
+    return d
